@@ -186,8 +186,129 @@ func duplexMain() {
 			}
 		}
 	}
+	for r := 0; r < 3; r++ {
+		in := List(Int(12), Uint(rng.Next()>>1), Int(200))
+		obs := runParallelOnce(in)
+		if parallelFailing(obs) {
+			fmt.Printf("parallel: %s\n", obs.String())
+			bad = true
+		}
+	}
 	if bad {
 		os.Exit(1)
 	}
 	fmt.Println("duplex: ok")
+}
+
+// Parallel class: every factory name gets its OWN pair of instances and its own goroutine,
+// all running at the same time (package-level scratch or caches shared between instances
+// would show here and nowhere in a single-goroutine run).
+//
+//	input    = (12 seed nmsgs)
+//	observed = (panicked (bad_results_of_name_i ...))
+var parallelNames = []string{"aes-128", "aes-192", "aes-256", "", "sm4", "twofish", "3des", "xtea", "salsa20", "none"}
+
+func runParallelOnce(in Sx) Sx {
+	rng := NewRng(in.At(1).Uint64())
+	n := in.At(2).AsInt()
+	bad := make([]int, len(parallelNames))
+	type job struct {
+		key, iv []byte
+		seeds   []uint64
+		lens    []int
+	}
+	jobs := make([]job, len(parallelNames))
+	for i := range jobs {
+		jobs[i] = job{key: rng.Bytes(32), iv: rng.Bytes(rng.Range(16, 48)), lens: duplexLens(rng, n)}
+		for range jobs[i].lens {
+			jobs[i].seeds = append(jobs[i].seeds, uint64(rng.Intn(1<<16)))
+		}
+	}
+	failed := guard(120*time.Second, func() {
+		var wg, start sync.WaitGroup
+		start.Add(1)
+		panicked := make([]bool, len(parallelNames))
+		for i, name := range parallelNames {
+			wg.Add(1)
+			go func(i int, name string) {
+				defer wg.Done()
+				j := jobs[i]
+				panicked[i], _ = Catch(func() {
+					enc := xcipher.NewCrypt(name, exact(j.key), exact(j.iv))
+					dec := xcipher.NewCrypt(name, exact(j.key), exact(j.iv))
+					start.Wait()
+					for m := range j.lens {
+						msg := lcg(j.seeds[m], j.lens[m])
+						want, err := reference(name, j.key, j.iv, msg)
+						if err != nil {
+							panic(err)
+						}
+						ct := enc.Encrypt(pm(msg, j.seeds[m], 0))
+						if !bytes.Equal(ct, want) {
+							bad[i]++
+							continue
+						}
+						if back := dec.Decrypt(pm(ct, j.seeds[m], 3)); !bytes.Equal(back, msg) {
+							bad[i]++
+						}
+					}
+				})
+			}(i, name)
+		}
+		start.Done()
+		wg.Wait()
+		for _, p := range panicked {
+			if p {
+				panic("an instance panicked")
+			}
+		}
+	})
+	res := make([]Sx, len(bad))
+	for i, b := range bad {
+		res[i] = Int(int64(b))
+	}
+	return List(Bool(failed), ListOf(res))
+}
+
+func parallelFailing(obs Sx) bool {
+	if obs.At(0).AsBool() {
+		return true
+	}
+	for i := 0; i < obs.At(1).Len(); i++ {
+		if obs.At(1).At(i).AsInt() != 0 {
+			return true
+		}
+	}
+	return false
+}
+
+func runParallel(in Sx) Sx {
+	tries := 1
+	if replayMode {
+		tries = 8
+	}
+	var obs Sx
+	for k := 0; k < tries; k++ {
+		obs = runParallelOnce(in)
+		if parallelFailing(obs) {
+			break
+		}
+	}
+	return obs
+}
+
+func parallelCases(a Args, out *Out, rng *Rng) {
+	rounds, n := 2, 60
+	if a.Thorough() {
+		rounds, n = 10, 300
+	}
+	for r := 0; r < rounds; r++ {
+		in := List(Int(12), Uint(rng.Next()>>1), Int(int64(n)))
+		obs := run(in)
+		out.Case("parallel", true, in, obs)
+		out.GoChecked += int64(2 * n * len(parallelNames))
+		if parallelFailing(obs) {
+			violation(out, "C16/factory/parallel", "instances of different ciphers used at the same time by different goroutines give wrong results: "+obs.String(), in)
+		}
+	}
 }
